@@ -66,7 +66,8 @@ class C04(Check):
         import random
         rng = random.Random(self.seed + 4)       # its own stream: the cases above stay what they were
         return ([self.make_case(self.rng) for _ in range(n)] + [dict_case(self.rng) for _ in range(n // 3)]
-                + [c for _ in range(n // 8) for c in bits_pair(rng)])
+                + [c for _ in range(n // 8) for c in bits_pair(rng)]
+                + [twomaps_case(rng) for _ in range(n // 10)])
 
     def corpus(self):
         # the golden-pinned aliasing of two instances of one subprogram class
@@ -149,6 +150,17 @@ class C04(Check):
         terms, idx = [], []
         for i, c in enumerate(cases):
             c["_run"] = None
+            if c.get("kind") == "twomaps":
+                try:
+                    c["_b"] = twomaps_build(c)
+                except Exception as e:      # noqa
+                    import traceback
+                    c["_b"] = Err(6, f"{type(e).__name__}: {e} {traceback.format_exc()[-300:]}")
+                    continue
+                b = c["_b"]
+                terms.append(f"(exec_vars {ebpf_exec.cprog(b['instrs'])} [] [{ebpf_exec.cbytes(bytes(b['sizes'][0]))}; {ebpf_exec.cbytes(bytes(b['sizes'][1]))}] [] {ebpf_exec.cbytes(bytes(256))})")
+                idx.append(i)
+                continue
             if c.get("kind") == "bits":
                 b = dsl.build(bits_decls(c), bits_stmts(c), xdp_min=c["G"])
                 b = dsl.build(bits_decls(c), bits_stmts(c), xdp_min=c["G"])      # the second program of the class is the one executed
@@ -216,6 +228,8 @@ class C04(Check):
         return dsl.from_bytes("q" if f == "x" else f, data)
 
     def run_impl(self, case):
+        if case.get("kind") == "twomaps":
+            return twomaps_run(case)
         if case.get("kind") == "bits":
             return bits_run(case)
         if case.get("kind") == "dict":
@@ -240,6 +254,8 @@ class C04(Check):
         b = case["_b"]
         if isinstance(b, Err) or case.get("_o") is None:
             return None
+        if case.get("kind") == "twomaps":
+            return None      # decided by the oracle: every variable of either map holds the value stored into it
         if case.get("kind") == "bits":
             return bits_term(case)
         if case.get("kind") == "dict":
@@ -268,6 +284,8 @@ class C04(Check):
 
     # ---- oracle
     def holds(self, case, o):
+        if case.get("kind") == "twomaps":
+            return twomaps_holds(case, o)
         if case.get("kind") == "bits":
             return bits_holds(case, o)
         if case.get("kind") == "dict":
@@ -357,6 +375,9 @@ class C04(Check):
     def distribution(self, cases, observed):
         d = {"with_subprograms": 0, "same_class_twice": 0, "array_vars": 0, "locals": 0, "build_errors": 0, "dict_programs": 0, "dict_updates": 0, "hash_vars": 0}
         for c, o in zip(cases, observed):
+            if c.get("kind") == "twomaps":
+                d["two_map_programs"] = d.get("two_map_programs", 0) + 1
+                continue
             if c.get("kind") == "bits":
                 d["bit_field_programs"] = d.get("bit_field_programs", 0) + 1
                 d["bit_field_stores"] = d.get("bit_field_stores", 0) + sum(1 for s in c["stmts"] if s[0] != "read")
@@ -381,6 +402,81 @@ class C04(Check):
 
 # ---------------------------------------------------------------- locals + Dict structures + hash-map variables
 DFMTS = ["B", "H", "I", "Q", "b", "h", "i", "q"]
+
+
+# ---- two array maps in one program: the stock ArrayMap and a subclass with another base register (the documented hook that
+# PerCPUArrayMap uses too); every variable lives in the map that declared it
+def twomaps_case(rng):
+    mk = lambda p: [[f"{p}{k}", rng.choice(["B", "H", "I", "Q", "i", "q"])] for k in range(rng.randint(1, 3))]      # noqa
+    first, second = mk("a"), mk("z")
+    order = [v[0] for v in first + second]
+    rng.shuffle(order)
+    fm = dict(first + second)
+    return {"kind": "twomaps", "first": first, "second": second, "base": rng.choice([6, 8]),
+            "writes": [[n, exprs.rand_value(rng, fm[n])] for n in order if rng.random() < 0.8] or [[order[0], 1]]}
+
+
+def twomaps_build(case):
+    from ebpfcat.arraymap import ArrayMap
+    from ebpfcat.ebpf import EBPF
+    from ebpfcat.bpf import ProgType
+    Second = type("SecondMap", (ArrayMap,), {"base_register": case["base"]})
+    m1, m2 = ArrayMap(), Second()
+    ns = {"m1": m1, "m2": m2}
+    for n, f in case["first"]:
+        ns[n] = m1.globalVar(f)
+    for n, f in case["second"]:
+        ns[n] = m2.globalVar(f)
+    P = type("P", (EBPF,), ns)
+    with sim_kernel.installed() as kernel:
+        e = P(ProgType.XDP, "GPL")
+        for n, v in case["writes"]:
+            setattr(e, n, v)
+        e.r0 = 2
+        e.exit()
+        fds = {fd: k for k, fd in enumerate(kernel.maps)}
+        instrs = []
+        for ins in e.opcodes:
+            op, dst, src, off, imm = ins
+            if op.value == 0x18 and src == 1:
+                imm = fds.get(imm, 0)
+            instrs.append((op.value, dst, src, off, imm))
+        order = [fds[m.fd] if hasattr(m, "fd") and m.fd in fds else k for k, m in enumerate((m1, m2))]
+    return {"instrs": instrs, "sizes": [m1.size, m2.size], "pos": {n: e.__dict__[n] for n, f in case["first"] + case["second"]}, "order": order}
+
+
+def twomaps_run(case):
+    b = case["_b"]
+    if isinstance(b, Err):
+        return b
+    r = case["_run"]
+    if r is None:
+        return Err(9, "model evaluation failed")
+    status, pkt, maps, stack, regs = r
+    if status != [1]:
+        return Err(7, f"program did not exit normally: status {status}")
+    vals = {}
+    for which, vs in ((0, case["first"]), (1, case["second"])):
+        data = bytes(maps[b["order"][which]])
+        for n, f in vs:
+            vals[n] = dsl.from_bytes(f, data[b["pos"][n]:b["pos"][n] + fsize(f)])
+    case["_o"] = vals
+    return vals
+
+
+def twomaps_holds(case, o):
+    if isinstance(o, Err):
+        if o.code == 6:
+            return True if ("no value" in o.what or "not enough registers" in o.what) else f"generator refused a program with two array maps: {o.what}"
+        return o.what
+    want = {n: 0 for n, f in case["first"] + case["second"]}
+    want.update({n: v for n, v in case["writes"]})
+    for n, v in want.items():
+        if o[n] != v:
+            where = "first (stock ArrayMap)" if n[0] == "a" else f"second (ArrayMap subclass with base_register = {case['base']})"
+            return (f"variable {n} of the {where} map holds {o[n]}, the program stored {v} into it (writes {case['writes']}): a store into one map's "
+                    f"variable landed elsewhere")
+    return True
 
 
 # ---- bit-field variables: several declared variables share a byte of the packet
